@@ -2,6 +2,7 @@ import RexModel.Compiled.Dataflow
 import RexModel.Compiled.Window
 import RexModel.Props.C03
 import RexModel.Async.Payload
+import RexModel.Compiled.Exec
 
 /-! # C01 — compiled replay reproduces the recorded asynchronous execution step for step
 
@@ -12,7 +13,9 @@ Three ingredients, all for arbitrary graphs / schedules:
 * `async_window_eq_last` / `applyWindow_sorted` / `C01_windows_agree` — the input window the asynchronous runtime builds
   by pushing (truncated) groups step after step, and the window `apply_window` selects from the recorded edge list for
   the same step, are the same list: the last `window` consumed messages, oldest first.
-* ring-buffer reads return the scheduled payload — property C08. -/
+* ring-buffer reads return the scheduled payload — property C08 — and therefore (`C01_compiled_executor_refines_dataflow`) the
+  compiled executor, which reads slots `seq % size` of payload buffers at the start of every generation and carries one step
+  state per node, computes exactly that dataflow evaluation along its trace. -/
 
 namespace Rex.C01
 
@@ -149,5 +152,48 @@ theorem C01_window_payloads_are_sender_outputs [TimeLike T] (cfg : Cfg T) (d : N
       ∃ r' : StepRec T, Val.stepRec r' ∈ s.q (.node (cfg.src c) .record) ∧ r'.seq = it.seq ∧ r'.output = some it.data := by
   have hi := pinv_run cfg h (pinv_init cfg)
   exact winOk_get cfg s nc.inputs r.windows (hi.records d nc hd r hr)
+
+/-! ## The compiled executor computes the dataflow evaluation (`Compiled/Exec.lean`) -/
+
+section Executor
+
+open Rex.Sched
+
+/-- **Executor refinement.** `exec` is the abstract machine of `partition_runner.py`: per generation every runnable cell
+reads its windows from the payload buffers as they are when the generation starts (slot `seq % size`), reads its node's
+carried step state, computes, and then all cells write. If the replay of the trace succeeds (C08: `traceOk`, implied by
+`sizedOk`), no vertex is scheduled twice, no dependency of a cell sits in the cell's own generation, a generation holds
+at most one cell per node and every node's steps come in sequence order, then the payload the executor computes for
+every vertex is the dataflow value of the recorded graph along the trace — for every trace, any number of generations,
+nodes, window sizes and buffer sizes. -/
+theorem C01_compiled_executor_refines_dataflow {Val : Type} (winsOf : Wins) (step : Step Val) (B : List Nat) (Tr : List (List Vtx))
+    (hok : traceOk true (B.map Ring.init) (Tr.map (genOfV winsOf)) = true)
+    (hnd : Tr.flatten.Nodup)
+    (hpos : ∀ v ∈ Tr.flatten, 0 ≤ v.seq)
+    (hsame : ∀ vs ∈ Tr, ∀ v ∈ vs, ∀ d ∈ depsOfV winsOf v, d ∉ vs)
+    (hkinds : ∀ vs ∈ Tr, ∀ v ∈ vs, ∀ w ∈ vs, w.kind = v.kind → w = v)
+    (hseq : ∀ pre vs post, Tr = pre ++ vs :: post → ∀ v ∈ vs, v.seq = ((cnt v.kind pre : Nat) : Int)) :
+    (exec winsOf step (initX B) Tr).env = Rex.Dataflow.run (dfGraph winsOf step) Tr.flatten (fun _ => none) :=
+  exec_refines_dataflow winsOf step B Tr hok hnd hpos hsame hkinds hseq
+
+/-- the same on a compiled instance: `execHypOk` decides the structural hypotheses and `sizedOk` the replay hypotheses;
+what both accept is evaluated by the executor exactly as the dataflow graph prescribes, for every step function. The
+driver runs both on the real timings (`sched.exec`) together with the executor itself on the harness's probe nodes, whose
+outputs are compared with the real compiled run. -/
+theorem C01_accepted_instance_executor_refines (i : Inst) (sizes : List Nat) {Val : Type} (step : Step Val)
+    (hx : execHypOk i = true) (hs : sizedOk (traceOf i 0) sizes.length sizes = true) :
+    (exec (xWins i) step (initX sizes) (xTrace i)).env
+      = Rex.Dataflow.run (dfGraph (xWins i) step) (xTrace i).flatten (fun _ => none) :=
+  exec_instance_refines i sizes step hx hs
+
+/-- non-vacuity: producer 1 (two steps) feeds supervisor 0 through a window of two; the executor's value for the
+supervisor's step is the step function of its (empty) carried state and the two producer outputs -/
+example :
+    let winsOf : Wins := fun v => if v.kind = 0 then [(1, [0, 1])] else []
+    let step : Step Nat := fun v p ws => 100 * v.kind.succ + 10 * (p.getD 7) + (ws.map (·.getD 5)).sum
+    (exec winsOf step (initX [1, 2]) [[⟨1, 0⟩], [⟨1, 1⟩], [⟨0, 0⟩]]).env ⟨0, 0⟩ = some (some (100 + 70 + (270 + (200 + 2700)))) := by
+  decide
+
+end Executor
 
 end Rex.C01
